@@ -116,3 +116,33 @@ CHECKS["C19"] = dict(level=EX, engine="E3", design_ref="DESIGN.md section 3 C19"
    technique="exhaustive enumeration of a parametric valid EML tree over the knobs each evaluator reads (full product per evaluator, all pairs across evaluators) plus generated witnesses and their one-mutation neighbours, against an independent re-statement of the recommendations",
    text="A valid EML tree (checked by validate.tree) is varied over every knob on and around each threshold: abstract form x 0/1/19/20/21 words, title 0/1/4/5/6 words in and outside a dataset, keyword sets 0/4/5/2+2/2+3/6, each responsible-party kind x user id {none, ORCID, other, empty, both} x e-mail x name, entity descriptions, data-table physical/size/checksum/record count/record delimiter (direct and under textFormat), descriptions under every listed known parent; evaluate.tree and evaluate.node must not raise, must append only (code, message, node) triples after existing entries, and the multiset of (code, node) must equal the independent oracle. Witness trees and their mutants built from known names extend totality. Titles use ten different word separators; entity-level methods/coverage and a project-level abstract/related project act as look-alikes of dataset-level elements; every tree is evaluated twice into the same list.",
    note="Unspecified zones (listed in the evidence assumptions) are skipped per node, not per tree; message strings are not compared.")
+
+
+# A second, parametric layer next to each exhaustive one (added after the eighth wave of seeded changes, whose changes need
+# inputs beyond the exhaustive bounds): families enumerated completely in one or two parameters with the rest fixed at a
+# large value, judged by the same oracles.  Also the sequences "on the same objects" added after waves 6-7.
+BEYOND = {
+ "C01": "Beyond L: every self-loop of each DFA pumped 9-1000 times; the child verdict re-taken for every short word with the parent's own text/attributes varied (frame condition) and after in-place rearrangement of the children.",
+ "C03": "The violation raised in fail-fast mode must be the first one collecting mode lists; values padded with white space are among the unlisted values.",
+ "C04": "Every repeatable child repeated 65 and 300 times; one Rule object driven through repeated validations; a rule whose children section does not parse is still driven over the names it mentions.",
+ "C05": "Trees producing 103, 132 and 1102 errors in one walk; repeated leaves of which one is invalid by an attribute value.",
+ "C06": "Chains of 13/30/70, stars of 12+1/40/300, 17x3, 14 attributes, seven prefixes over four URIs, 300-5000 character texts; prefixes declared before attachment; extras stored before attributes; a hand-written JSON document loaded and re-saved.",
+ "C07": "The same deep/wide shapes; elements with 5/9/14 attributes, qualified attributes and 8 namespace declarations; values with 144 markup characters and up to 5000 characters; an inner node and the copy of an inner node exported as documents.",
+ "C08": "Texts longer than any line width; the text of a childless element must be stable exactly across import-export-import.",
+ "C09": "Around every transition the queries are run before and after the edit on the same objects. Beyond the universes: one parent with 9-10 (9-12) children, every two-name pattern x every single shift; 17-70 children with sparse same-name patterns; chains of 13-64 nodes with all queries.",
+ "C10": "Every element with a foreign child at every position: what validate.node allows validate.tree must accept. Integrity phase: odd look-ups, some hundred refused fail-fast whole-tree validations, then every witness again.",
+ "C11": "Bases with 24 children, depth 30 and 5000-character text; candidates created with a parent link; the name paths that exist below each node.",
+ "C12": "Copies of the deep/wide shapes and of a 4226-node tree; blank, '0' and non-string values.",
+ "C13": "Beyond the BFS: parent with 0-6 of six prefixes x every subset bound by the child x leaf or not x append / index 0; chains of 26/30/64 nodes.",
+ "C14": "Outside the BFS: 70000 (140000) nodes created, copied and imported in one process; a child replaced by one of its own siblings for every pair of positions.",
+ "C16": "Role counts up to 3+4, 257/300/1000 ids with first, middle and last referenced, ids on the root / dataset / inside metadata; copies compared with their sources on every field (tails, extras).",
+ "C17": "For every candidate, the rule's other names in declared order each repeated 1/2/3/8/20 times (up to several hundred existing children); a Rule object that validated before being asked; every rule refuses every known name it does not list.",
+ "C18": "Compound differences a folded comparison cannot see; texts of 400 characters differing at the end or in the middle; non-string values; the deep/wide shapes.",
+ "C19": "Evaluate - edit one text in place - evaluate again, for every text of the baseline and of every single-knob deviation; several given names; paras nested in another para's list; a creator nine levels down.",
+ "C20": "Gaps of 9-5000 blanks of six kinds in four positions; 3000-word texts; forty 9000-byte documents shifted byte by byte; compatibility characters; protected white space preserved exactly.",
+}
+for _k, _v in BEYOND.items():
+    CHECKS[_k]["text"] = CHECKS[_k]["text"].rstrip() + " Additionally: " + _v
+
+NOTES = NOTES + (" Workers are forked from a fork server (constant process image), so every block of cases, every re-run of a block "
+                 "and every single replay starts from the same state; a problem is reported only if it reproduces that way.")
